@@ -833,6 +833,7 @@ def run_C04(ctx):
     rng = random.Random(ctx.seed)
     n = 6000 if ctx.thorough() else 350
     groups = []   # (base_index, [(label, case_index)])
+    dup_groups = []
     cases = []
     bases = []
     for i in range(n):
@@ -861,6 +862,17 @@ def run_C04(ctx):
                                                   {"name": "b", "lets": [], "lines": [["a"]]},
                                                   {"name": "c", "lets": [], "lines": [[alt for alt in l.split(" or ")] for l in third]}]},
                           {"x": 1}, False))
+    # one rule name defined several times under different guards (the name then has a LIST of statuses), referenced by
+    # other rules: neither the reference nor any listing may depend on the order of the definitions
+    # (guards under which at most ONE definition applies: with two applicable definitions the first non-SKIP one names the
+    # status of the rule, which is an ordered choice by design)
+    for ga, gb in (("x == 1", "x == 2"), ("x == 2", "x == 1"), ("x == 3", "x == 2"), ("y exists", "x == 1")):
+        for ba, bb in (("x == 1", "x == 5"), ("x == 5", "x == 1"), ("x == 5", "x == 6")):
+            bases.append(({"lets": [], "rules": [{"name": "sized", "lets": [], "lines": [["when %s {\n%s\n}" % (ga, ba)]]},
+                                                  {"name": "sized", "lets": [], "lines": [["when %s {\n%s\n}" % (gb, bb)]]},
+                                                  {"name": "check", "lets": [], "lines": [["sized"]]},
+                                                  {"name": "ncheck", "lets": [], "lines": [["not sized"]]}]},
+                          {"x": 1}, "dup"))
     for p, d, known in bases:
         data = json.dumps(d)
         bi = len(cases)
@@ -870,6 +882,8 @@ def run_C04(ctx):
             vs.append((label, len(cases)))
             cases.append({"rules": gen.print_program(q), "data": data})
         groups.append((bi, vs))
+        if known == "dup":
+            dup_groups.append((bi, vs))
     results = vlib.correspond(cases, ctx.hp, ctx.mp)
     absorb(res, results, "C04 variants")
     res.nontrivial = set()
@@ -893,11 +907,16 @@ def run_C04(ctx):
         if any(results[k]["impl"].get("kind") != "ok" for _, k in vs):
             res.stats["c04-class-discarded-error"] += 1
             continue
-        bst = dict((n_, s) for n_, s in base["impl"]["rules"])
+        def by_name(rs):
+            out_ = {}
+            for n_, s_ in rs:
+                out_.setdefault(n_, []).append(s_)
+            return {k_: (v_[0] if len(v_) == 1 else tuple(sorted(v_))) for k_, v_ in out_.items()}     # a name defined twice: the multiset
+        bst = by_name(base["impl"]["rules"])
         res.nontrivial.add(bi)
         for label, k in vs:
             v = results[k]["impl"]
-            vst = dict((n_, s) for n_, s in v["rules"])
+            vst = by_name(v["rules"])
             res.stats["c04-variant:" + label.split(":")[0]] += 1
             bad = None
             for name, s in bst.items():
@@ -905,7 +924,7 @@ def run_C04(ctx):
                     bad = "rule %s is %s in the base program and %s after %s" % (name, s, vst.get(name), label)
             if v["status"] != base["impl"]["status"]:
                 bad = bad or "file status %s became %s after %s" % (base["impl"]["status"], v["status"], label)
-            if label.startswith("duplicate-rule:") and vst.get("clone") != bst.get(label.split(":", 1)[1]):
+            if label.startswith("duplicate-rule:") and not isinstance(bst.get(label.split(":", 1)[1]), tuple) and vst.get("clone") != bst.get(label.split(":", 1)[1]):
                 bad = bad or "the duplicated rule has status %s, its original %s" % (vst.get("clone"), bst.get(label.split(":", 1)[1]))
             if bad:
                 cap = uses_capture(base.get("ast")) if base.get("ast") else False
@@ -1105,8 +1124,13 @@ def c06_job(rs, ds, mode):
     files, argv, stdin = {}, ["validate"], b""
     as_dirs = mode.endswith("+dir")
     mode = mode.replace("+dir", "")
-    rnames = [("rd/" if as_dirs else "") + "r%d.guard" % i for i in range(len(rs))]
-    dnames = [("dd/" if as_dirs else "") + "d%d.%s" % (i, "yaml" if ds[i] == "goodyaml" else "json") for i in range(len(ds))]
+    # files named on the command line are read whatever they are called (`policy.rules`, `checks`, `tmpl.txt`); only a
+    # directory scan goes by extension. Every other explicit scenario uses such names.
+    odd = (not as_dirs) and (len("".join(rs)) + len("".join(ds)) + len(mode)) % 2 == 1
+    rext = (lambda i: [".rules", "", ".ruleset", ".txt"][i % 4]) if odd else (lambda i: ".guard")
+    rnames = [("rd/" if as_dirs else "") + "r%d%s" % (i, rext(i)) for i in range(len(rs))]
+    # (data files are selected by extension even when named explicitly - documented - so they keep supported ones)
+    dnames = [("dd/" if as_dirs else "") + "d%d.%s" % (i, ("yaml" if ds[i] == "goodyaml" else "json") if not odd else ["yml" if ds[i] == "goodyaml" else "jsn", "template"][i % 2]) for i in range(len(ds))]
     if mode.startswith("payload"):
         if any(r == "unreadable" for r in rs):
             return None
@@ -1229,6 +1253,9 @@ def test_file_text(rng, kind, rk="ok"):
     """returns (text, [mismatch per case]) or (text, None) for an unparsable file"""
     if kind == "unparsable":
         return "- name: [unclosed\n  input: {", None
+    if kind == "badexp":
+        # an expectation that is not one of PASS / FAIL / SKIP: the file is not a valid test file (never exit 0)
+        return json.dumps([{"name": "c0", "input": {"x": 1, "y": 1}, "expectations": {"rules": {"chk": rng.choice(["pass", "PASSED", "Ok", "fail", ""])}}}]), None
     if rk == "dup":
         # statuses of `chk` per input: x=1 -> [FAIL, SKIP], x=2 -> [SKIP, PASS], x=3 -> [SKIP, SKIP]; an expectation is met
         # when SOME evaluation of the name has the expected status, SKIP only when ALL of them are SKIP
@@ -1274,8 +1301,8 @@ def run_C06_test(ctx, res, rng):
             for b in fcls:
                 forced.append(("dir", fmt, [a[0], b[0]], [[a[1]], [b[1]]]))
         for rk in ("ok", "bad", "empty", "dup"):
-            for k1 in ("match", "mismatch", "unparsable"):
-                for k2 in ("match", "mismatch", "unparsable"):
+            for k1 in ("match", "mismatch", "unparsable", "badexp"):
+                for k2 in ("match", "mismatch", "unparsable", "badexp"):
                     forced.append(("single", fmt, [rk], [[k1, k2]]))
     for i in range(n + len(forced)):
         fz = forced[i] if i < len(forced) else None
@@ -1323,7 +1350,7 @@ def run_C06_test(ctx, res, rng):
         res.stats["test-exit:%s" % code] += 1
         res.stats["test-layout:%s/%s" % (layout, fmt)] += 1
         res.nontrivial.add(("test", layout, fmt, tuple(rks), json.dumps(allk)))
-        parse_ok = all(r != "bad" for r in rks) and all(k != "unparsable" for r, ks in zip(rks, allk) for k in ks if r in ("ok", "dup"))
+        parse_ok = all(r != "bad" for r in rks) and all(k not in ("unparsable", "badexp") for r, ks in zip(rks, allk) for k in ks if r in ("ok", "dup"))
         mismatch = any(k == "mismatch" for r, ks in zip(rks, allk) for k in ks if r in ("ok", "dup"))
         what = None
         if (code == 0) != (parse_ok and not mismatch):
@@ -1334,7 +1361,9 @@ def run_C06_test(ctx, res, rng):
             res.judge_failures.append({"what": "test exit code: " + what, "class": "c06-test", "layout": layout, "format": fmt,
                                        "rules": rks, "tests": allk, "argv": jobs[i]["argv"], "files": {k: (v if isinstance(v, str) else "<bytes>") for k, v in jobs[i]["files"].items()},
                                        "stdout": o["stdout"][:400], "stderr": o["stderr"][:300]})
-        if mr.get("exit") != code:
+        if any(k == "badexp" for ks in allk for k in ks):
+            res.stats["c06-test-badexp-not-modelled"] += 1      # the model has no class for an invalid expectation string (255 plain / 1 structured)
+        elif mr.get("exit") != code:
             res.disagreements.append({"what": "test exit-code model %s vs binary %s (%s %s rules=%s tests=%s)" % (mr.get("exit"), code, layout, fmt, rks, allk),
                                       "argv": jobs[i]["argv"], "stdout": o["stdout"][:300]})
 
@@ -3853,6 +3882,19 @@ def c05_scenarios(ctx, n):
         modes = [("plain", "plain", base + ["-S", "all"]), ("s-json", "bytes", base + ["--structured", "-o", "json", "-S", "none"])]
         out.append({"kind": "validate", "files": {"r.guard": rules, "t.json": json.dumps({"x": 1, "y": "q"})}, "modes": modes,
                     "rules": rules, "data": json.dumps({"x": 1, "y": "q"})})
+    # input parameters that clash with the data file in SEVERAL top-level keys, several failing rules per rules file in
+    # every structured format: whatever such a message / attribute lists, it lists in a fixed order
+    clash_d = {"a": 1, "b": 2, "c": 3, "d": 4, "e": 5, "keep": 0}
+    clash_p = {"e": 9, "c": 9, "a": 9, "b": 9, "extra": 1}
+    many_fail = "".join("rule %s { keep == %d }\n" % (nm, k_ + 1) for k_, nm in enumerate(["alpha", "beta", "gamma", "delta", "omega", "zeta"]))
+    base = ["validate", "-r", "{DIR}/r.guard", "-d", "{DIR}/t.json"]
+    out.append({"kind": "validate", "files": {"r.guard": many_fail, "t.json": json.dumps(clash_d), "p.json": json.dumps(clash_p)},
+                "modes": [("clash-plain", "plain", base + ["-i", "{DIR}/p.json", "-S", "all"]),
+                          ("clash-s-json", "bytes", base + ["-i", "{DIR}/p.json", "--structured", "-o", "json", "-S", "none"]),
+                          ("s-junit", "junit", base + ["--structured", "-o", "junit", "-S", "none"]),
+                          ("s-sarif", "bytes", base + ["--structured", "-o", "sarif", "-S", "none"]),
+                          ("plain", "plain", base + ["-S", "all"]), ("o-json", "bytes", base + ["-o", "json", "-S", "none"])],
+                "rules": many_fail, "data": json.dumps(clash_d)})
     # time stamps of every shape through parse_epoch: the result (a value or an error) must not depend on the time zone
     for k, stamp in enumerate(["2024-01-01T00:00:00Z", "2024-01-01T00:00:00", "2024-01-01 00:00:00", "2024-06-30T12:30:00+09:00",
                                "2024-01-01", "1700000000", "Mon, 01 Jan 2024 00:00:00 GMT"]):
